@@ -28,9 +28,14 @@ def stream_bytes(h, *, delimited=True, name=""):
     return wire.enc_delimited([fr]) if delimited else wire.enc_frame(fr)
 
 
+_CALLS = [0]
+
+
 def call_parser(integ, parser, strict, data, preread=False):
     mod = __import__(f"pyjelly.integrations.{integ}.parse", fromlist=["parse_jelly_flat"])
-    inp = io.BytesIO(data)
+    # the byte source is rotated as well (in-memory kinds of the usage lattice): the verdict on a header does not depend on it
+    _CALLS[0] += 1
+    inp, _ = usage.open_source(("bytesio", "bytesio-at-offset", "duck-typed-seekable", "pipe-1-1-1", "buffered-over-pipe", "pipe-7-byte-reads")[_CALLS[0] % 6], data, "")
     if parser == "flat":
         if preread:      # the documented two-step use: the caller reads the header itself and hands options and frames over
             from pyjelly.parse.ioutils import get_options_and_frames as _gof  # noqa: PLC0415
